@@ -5,6 +5,9 @@ import (
 	"encoding/json"
 	"fmt"
 	"math"
+	"runtime"
+	"sync"
+	"time"
 
 	modbus "github.com/aldas/go-modbus-client"
 	"github.com/aldas/go-modbus-client/packet"
@@ -186,7 +189,85 @@ func fieldOf(c regCall, i int) modbus.Field {
 		Bit: uint8(c.Bit), FromHighByte: c.High != 0, Length: uint8(c.Len), ByteOrder: packet.ByteOrder(c.Order)}
 }
 
+// driveRegsPar: the "window" cases again, by 64 goroutines at once, each case on its OWN payload and Registers
+// (nothing is shared by the callers): a value must still be determined by the addressed wire bytes alone.
+// Every call is repeated; the first round is logged completely, later rounds only where the result differs from
+// the first round (such an event is judged like any other).  A helper forces preemption at arbitrary points.
+func driveRegsPar(w *writer) error {
+	var cases []*regCase
+	err := readCases(flagIn, func(line []byte) error {
+		c := &regCase{}
+		if err := json.Unmarshal(line, c); err != nil {
+			return err
+		}
+		if c.Op == "window" {
+			cases = append(cases, c)
+		}
+		return nil
+	})
+	if err != nil {
+		return err
+	}
+	rounds := 4
+	if flagTier == "thorough" {
+		rounds = 12
+	}
+	stop := make(chan struct{})
+	go func() {
+		for {
+			select {
+			case <-stop:
+				return
+			default:
+				runtime.GC()
+				time.Sleep(200 * time.Microsecond)
+			}
+		}
+	}()
+	ch := make(chan *regCase)
+	var wg sync.WaitGroup
+	for g := 0; g < 64; g++ {
+		wg.Add(1)
+		go func() {
+			defer wg.Done()
+			for c := range ch {
+				evs := []Ev{{"ev": "reset", "start": c.Start, "payload": c.Payload, "def": c.Def}}
+				first := make([]string, len(c.Calls))
+				for round := 0; round < rounds; round++ {
+					for i, cl := range c.Calls {
+						data := window(c.Payload)
+						r, err := packet.NewRegisters(data, uint16(c.Start))
+						if err != nil {
+							continue
+						}
+						r.WithByteOrder(packet.ByteOrder(c.Def))
+						e := doRegCall(r, data, cl)
+						key := fmt.Sprint(e["outcome"], e["value"], e["after"])
+						if round == 0 {
+							first[i] = key
+							evs = append(evs, e)
+						} else if key != first[i] {
+							evs = append(evs, e)
+						}
+					}
+				}
+				w.emitAll(evs)
+			}
+		}()
+	}
+	for _, c := range cases {
+		ch <- c
+	}
+	close(ch)
+	wg.Wait()
+	close(stop)
+	return nil
+}
+
 func driveRegs(w *writer) error {
+	if flagMode == "par" {
+		return driveRegsPar(w)
+	}
 	return readCases(flagIn, func(line []byte) error {
 		var c regCase
 		if err := json.Unmarshal(line, &c); err != nil {
